@@ -19,7 +19,9 @@ const gocqlPrefix = "github.com/gocql/gocql"
 // dumpDir: where goroutine dumps of stalls and leaks go (the run's output directory).
 var dumpDir = os.TempDir()
 
-func dumpPath(kind, label string) string { return fmt.Sprintf("%s/c17_%s_%s.txt", dumpDir, kind, label) }
+func dumpPath(kind, label string) string {
+	return fmt.Sprintf("%s/c17_%s_%s.txt", dumpDir, kind, label)
+}
 
 // withLabel runs f on a fresh goroutine labelled sc=<label> and waits for it.
 func withLabel(label string, f func()) {
